@@ -191,6 +191,27 @@ pub fn families(n: usize, seed: u64) -> Vec<Fam> {
         e.remove(n / 2);
         out.push(Fam { name: nm("five-edits".into()), old: b.clone(), new: e });
     }
+    // mostly unique items with recurring fillers in between (source code: unique lines, '}' and
+    // blank lines); the edit touches a FILLER only, so the lengths up to the end of the run of
+    // unique anchors stay equal
+    {
+        let b: Vec<u32> = (0..n).map(|i| if i % 3 == 2 { 777_000 + ((i / 3) % 2) as u32 } else { i as u32 }).collect();
+        let fillers: Vec<usize> = (0..n).filter(|i| i % 3 == 2).collect();
+        for &q in &[1usize, 2, 5, 8] {
+            let p = fillers[(fillers.len() * q) / 10];
+            let mut s = b.clone();
+            s[p] = if s[p] == 777_000 { 777_001 } else { 777_000 };
+            out.push(Fam { name: format!("unique-with-fillers-{}-filler-swapped@{}", n, p), old: b.clone(), new: s });
+            let mut mv = b.clone();
+            let f = mv.remove(p);
+            mv.insert((p + 3).min(mv.len()), f);
+            out.push(Fam { name: format!("unique-with-fillers-{}-filler-moved@{}", n, p), old: b.clone(), new: mv });
+            let mut d = b.clone();
+            d.remove(p);
+            out.push(Fam { name: format!("unique-with-fillers-{}-filler-deleted@{}", n, p), old: b.clone(), new: d.clone() });
+            out.push(Fam { name: format!("unique-with-fillers-{}-filler-inserted@{}", n, p), old: d, new: b.clone() });
+        }
+    }
     // expensive shapes, capped at 400 items
     let c = n.min(400);
     out.push(Fam { name: format!("unrelated-{}", c), old: (0..c as u32).collect(), new: (c as u32..2 * c as u32).collect() });
